@@ -493,4 +493,55 @@ theorem runOp_ret_from_step {σ ρ : Type} (cfg : Cfg) (seqName : String) (cmd :
   intro r h
   exact retryLoop_ret cfg (seqDesc seqName cmd) timeout step P hP ATTEMPTS none w s r h
 
+/-! ### the handshake: what `connect` leaves behind -/
+
+theorem onceExchange_id (d : SeqDesc) (w : World) (c : ConnSt) : (onceExchange d w c).2.2.id = c.id := by
+  have h := (seqNext_conn d w c .start).2
+  unfold onceExchange
+  generalize seqNext d w c .start = q at h ⊢
+  obtain ⟨o, w1, c1, st⟩ := q
+  cases o <;> exact h
+
+/-- **The handshake either yields a vetted connection with a brand-new identity, or no connection at all.**
+`true` only on the one path where registration and the identity query were both answered and the serial
+number matched (every other path drops the socket); the new connection's identity is the next unused one,
+so it is never a connection that existed before. -/
+theorem connect_outcome (cfg : Cfg) (w : World) :
+    ((connect cfg w).2 = true → ∃ c, (connect cfg w).1.conn = some c ∧ c.id = w.logs.length) ∧
+    ((connect cfg w).2 = false → (connect cfg w).1.conn = none ∨ (connect cfg w).1.conn = w.conn) := by
+  unfold connect
+  simp only
+  split
+  · exact ⟨by simp, fun _ => Or.inr rfl⟩
+  · split
+    · exact ⟨by simp, fun _ => Or.inr rfl⟩
+    · generalize hw0 : ({ w with logs := w.logs ++ [[s!"open@{w.now}"]] } : World) = w0
+      have h1 := onceExchange_id (seqDesc "sequences::Registration" (registrationCmd cfg)) w0 { id := w.logs.length }
+      generalize onceExchange (seqDesc "sequences::Registration" (registrationCmd cfg)) w0 { id := w.logs.length } = q1 at h1 ⊢
+      obtain ⟨o, w1, c1⟩ := q1
+      simp only at h1
+      cases o with
+      | none => exact ⟨by simp, fun _ => Or.inl (dropConn_conn _ _)⟩
+      | some it =>
+        cases it with
+        | err => exact ⟨by simp, fun _ => Or.inl (dropConn_conn _ _)⟩
+        | ok i v =>
+          simp only
+          have h2 := onceExchange_id (seqDesc "feig::sequences::GetSystemInfo" sysInfoCmd) w1 c1
+          generalize onceExchange (seqDesc "feig::sequences::GetSystemInfo" sysInfoCmd) w1 c1 = q2 at h2 ⊢
+          obtain ⟨o2, w2, c2⟩ := q2
+          simp only at h2
+          cases o2 with
+          | none => exact ⟨by simp, fun _ => Or.inl (dropConn_conn _ _)⟩
+          | some it2 =>
+            cases it2 with
+            | err => exact ⟨by simp, fun _ => Or.inl (dropConn_conn _ _)⟩
+            | ok i2 v2 =>
+              simp only
+              split
+              · split
+                · exact ⟨fun _ => ⟨c2, rfl, by rw [h2, h1]⟩, by simp⟩
+                · exact ⟨by simp, fun _ => Or.inl (dropConn_conn _ _)⟩
+              · exact ⟨by simp, fun _ => Or.inl (dropConn_conn _ _)⟩
+
 end Zvt
